@@ -10,6 +10,7 @@ import (
 	"sort"
 	"strconv"
 	"strings"
+	"sync"
 
 	restful "github.com/emicklei/go-restful"
 	corev1 "k8s.io/api/core/v1"
@@ -122,6 +123,9 @@ type Sim struct {
 	reloadDropped map[string]bool
 	confGen       int
 	pendingReload *model.Topo
+	compound      bool   // an interleaved (two-goroutine) execution is in progress: steps skip their monitors
+	faultTag      string // signature suffix of the execution mode
+	recMu         sync.Mutex
 	lastBindPod   string
 	adminReserved map[string]bool // harness's own record of reservations made and not yet undone
 	provFault     bool
@@ -129,6 +133,11 @@ type Sim struct {
 }
 
 func (s *Sim) record(op, arg, res string) {
+	s.recMu.Lock()
+	defer s.recMu.Unlock()
+	if s.compound {
+		op = "~" + op // executed while another operation was paused at an API call
+	}
 	s.stepN++
 	st := Step{N: s.stepN, Op: op, Arg: arg, Res: res}
 	if len(s.W.In.Hit) > 0 {
@@ -237,6 +246,9 @@ func (s *Sim) genWorkloads(withTApp bool) {
 		}
 		// requested ranges for non-deployment workloads sometimes
 		rangesOneIn := 4
+		if focus == "C10" {
+			rangesOneIn = 2
+		}
 		if focus == "C08" {
 			rangesOneIn = 1
 			if wl.Kind == KDp && rng.Intn(2) == 0 {
